@@ -14,6 +14,7 @@ mod c11;
 mod c12;
 mod c13;
 mod c14;
+mod c15;
 mod c16;
 mod c17;
 mod c18;
@@ -45,6 +46,7 @@ fn props() -> Vec<Prop> {
     Prop { id: "C06", exec: c06::exec, classify: no_class, gen: c06::gen },
     Prop { id: "C07", exec: c07::exec, classify: no_class, gen: c07::gen },
     Prop { id: "C14", exec: c14::exec, classify: no_class, gen: c14::gen },
+    Prop { id: "C15", exec: c15::exec, classify: no_class, gen: c15::gen },
     Prop { id: "C16", exec: c16::exec, classify: no_class, gen: c16::gen },
     Prop { id: "C17", exec: c17::exec, classify: no_class, gen: c17::gen },
     Prop { id: "C18", exec: c18::exec, classify: no_class, gen: c18::gen },
